@@ -13,7 +13,7 @@ from asynq import tools as T  # noqa: E402
 from asynq.decorators import (make_async_decorator, get_async_fn, get_async_or_sync_fn, is_async_fn,  # noqa: E402
                               is_pure_async_fn, has_async_fn, async_call)
 
-DECOS = ["asynq", "pure", "proxy", "syncpair", "made", "made_pure", "dedup", "aretry", "alru", "percache"]
+DECOS = ["asynq", "pure", "proxy", "proxy_syncpair", "syncpair", "made", "made_pure", "dedup", "dedup_syncpair", "aretry", "alru", "percache"]
 BINDINGS = ["function", "method", "classmethod", "staticmethod"]
 RECEIVERS = ["inst", "subinst", "falsyinst", "cls", "subcls", "cls_explicit_self"]
 SPELL = ["pos", "kw", "default", "mixed"]
@@ -22,6 +22,10 @@ BODIES = ["plain", "generator", "blocking", "raising"]
 
 def valid(deco, binding, receiver):
     if deco == "made_pure" and binding not in ("function", "staticmethod"):
+        return False
+    if deco == "proxy_syncpair" and binding == "staticmethod":
+        return False
+    if deco == "dedup_syncpair" and binding not in ("function", "method"):
         return False
     if binding == "function":
         return receiver == "inst" and deco != "percache"
@@ -137,6 +141,18 @@ class C09(object):
                 return A.asynq(pure=True)(inner)
             if deco == "syncpair":
                 return A.asynq(sync_fn=(wrap(sync_raw) if wrap else sync_raw))(inner)
+            if deco == "proxy_syncpair":
+                target = A.asynq()(raw)
+                if wrap is staticmethod or wrap is None and binding == "function":
+                    def p2(a, b=0, *, c=0):
+                        return target.asynq(a, b, c=c)
+                else:
+                    def p2(x, a, b=0, *, c=0):
+                        return target.asynq(x, a, b, c=c)
+                # sync_fn is a plain function: the binder of the proxy pair supplies self / cls
+                return A.async_proxy(sync_fn=sync_raw)(wrap(p2) if wrap else p2)
+            if deco == "dedup_syncpair":
+                return T.deduplicate()(A.asynq(sync_fn=(wrap(sync_raw) if wrap else sync_raw))(inner))
             if deco == "proxy":
                 target = A.asynq()(raw)
 
@@ -194,7 +210,7 @@ class C09(object):
         # a twin callable from the same factory (same module and qualified name) for the
         # conventions that run next to other tasks
         twin_fn = None
-        if deco in ("dedup", "asynq", "alru", "aretry") and binding in ("function", "staticmethod"):
+        if deco in ("dedup", "dedup_syncpair", "asynq", "alru", "aretry") and binding in ("function", "staticmethod"):
             tf, ts = mk("fn", None, twin=True)
             twin_fn = decorate(tf, ts, None)
 
@@ -242,7 +258,7 @@ class C09(object):
             exp_async = ("V", ("wrapped", body_exp))
         else:
             exp_async = ("V", body_exp)
-        exp_sync = ("V", ("sync_fn", tag, a, b, c)) if deco == "syncpair" else exp_async
+        exp_sync = ("V", ("sync_fn", tag, a, b, c)) if deco in ("syncpair", "proxy_syncpair", "dedup_syncpair") else exp_async
         pure = deco == "pure"
         ncomp = int(case.get("competitors", 0))
 
@@ -308,12 +324,28 @@ class C09(object):
             if got != exp:
                 out.append(("convention", "%s %s via %s, %s(%s%s): gave %r, expected %r" % (deco, binding, case.get("receiver"), conv, args[len(lead):], kw, got, exp)))
                 break
-            want_log = ("sync_fn", tag, a, b, c) if (conv == "sync" and deco == "syncpair") else ("body", tag, a, b, c)
+            want_log = ("sync_fn", tag, a, b, c) if (conv == "sync" and deco in ("syncpair", "proxy_syncpair", "dedup_syncpair")) else ("body", tag, a, b, c)
             own_log = [e for e in log if not str(e[1]).startswith("twin:")]
             cached = deco in ("alru", "percache") and not own_log and body_kind != "raising"
             if not cached and (not own_log or own_log[0] != want_log or (len(own_log) != 1 and deco not in ("aretry",))):
                 out.append(("same-body", "%s %s via %s, %s: ran %r, expected exactly %r" % (deco, binding, case.get("receiver"), conv, log, want_log)))
                 break
+        if not out and deco == "dedup" and body_kind != "raising":
+            del log[:]
+            try:
+                pending = x.asynq(*args, **kw)      # created, not awaited yet: in flight
+                got_sync = outcome(lambda: x(*args, **kw))
+                n_after_sync = len([e for e in log if e[0] == "body"])
+                got_pending = outcome(lambda: pending.value())
+                n_total = len([e for e in log if e[0] == "body"])
+                if got_sync != exp_async or got_pending != exp_async:
+                    out.append(("convention", "dedup %s: sync call next to an in-flight task gave %r / the in-flight task %r, expected %r" % (binding, got_sync, got_pending, exp_async)))
+                elif n_after_sync != 1 or n_total != 2:
+                    out.append(("same-body", "dedup %s: the synchronous call must run the body itself (only .asynq() calls share the in-flight task): body runs after the sync call %d, in total %d (expected 1 and 2)" % (binding, n_after_sync, n_total)))
+            except HarnessError:
+                raise
+            except BaseException as e:
+                out.append(("convention", "dedup %s: sync call next to an in-flight task raised %s: %s" % (binding, type(e).__name__, str(e)[:100])))
         # classification helpers must be consistent with how the callable can be called
         if not out:
             try:
